@@ -328,7 +328,45 @@ func checkStickyDefault(r *Run) {
 		}
 		defs := s.defaultConsts(p)
 		if len(defs) == 0 {
-			fail("C07.sticky: %s is used without selection at %s but the constructor's default selection could not be derived", key, p.ipos(unsel[0]))
+			// no derivable default: the use is sound only if every function leaves the same selection behind
+			left := map[string]string{}
+			for _, fn := range sortedFns(p.Fns) {
+				if !inRepo(fn) || fn.Blocks == nil || s.sels[fn] {
+					continue
+				}
+				allInstrs(fn, func(ins ssa.Instruction) {
+					cc := s.selCallOf(ins)
+					if cc == nil {
+						return
+					}
+					base := s.stickyBase(cc.Args[0])
+					for i2 := range reachFromInstr(ins, nil, func(i ssa.Instruction) bool {
+						c2 := s.selCallOf(i)
+						return c2 != nil && s.stickyBase(c2.Args[0]) == base
+					}) {
+						if _, isRet := i2.(*ssa.Return); isRet {
+							k := "a selection chosen at run time"
+							if kk, ok := intConst(cc.Args[1]); ok {
+								k = "selection " + itoa(kk)
+							}
+							if left[k] == "" {
+								left[k] = fname(fn) + " at " + p.ipos(ins)
+							}
+							return
+						}
+					}
+				})
+			}
+			var ks []string
+			for k := range left {
+				ks = append(ks, k+" ("+left[k]+")")
+			}
+			sort.Strings(ks)
+			for _, u := range unsel {
+				r.Check(len(left) <= 1, "C07.sticky", fname(u.Parent()), "a store used without selecting sees one possible selection only", "every function leaves the same selection behind",
+					"the call at "+p.ipos(u)+" uses "+key+" as the previous caller left it, and different functions leave different selections behind: "+strings.Join(ks, "; ")+": what it reads or writes depends on which call (a mempool check included) ran last", p.ipos(u))
+			}
+			continue
 		}
 		isDef := func(v ssa.Value) bool {
 			k, ok := intConst(v)
@@ -1752,5 +1790,466 @@ func checkBtcProcessEnd(r *Run, rule string) {
 		}
 		r.Check(len(missing) == 0, rule, fname(fn), "ending a tracker process resets every per-process field", strings.Join(fields, ", "),
 			fname(fn)+" sets ProcessType to none but leaves "+strings.Join(missing, ", ")+" as they were, while a sibling handler resets them: what is left (votes, owner, amounts) is taken for part of the next process on the same tracker", p.pos(fn.Pos()))
+	}
+}
+
+// ---- C13.schedule (snapshot on every cycle end) ---------------------------------------------------------------------
+//
+// The year counter's snapshot (TillLastCycle) is taken inside addYearDistributedRewards at the last block of a cycle. The
+// next cycle's per-block amount is computed from it, so the call must happen for every block of a running schedule —
+// whatever was consumed, zero included. Only burn-out or a storage error may skip it.
+func checkConsumeAlwaysBooks(r *Run) {
+	p := r.P
+	fn := p.MustFn("(*data/rewards.RewardCumulativeStore).ConsumeRewards")
+	var call ssa.Instruction
+	allInstrs(fn, func(ins ssa.Instruction) {
+		if c, ok := ins.(*ssa.Call); ok && calleeName(c) == "(*data/rewards.RewardCumulativeStore).addYearDistributedRewards" {
+			call = c
+		}
+	})
+	okv := call != nil
+	how := "addYearDistributedRewards is no longer called"
+	if okv {
+		allowed := condEdges(fn, func(cond ssa.Value, _ *ssa.If) int {
+			// err != nil
+			if pol := -nilCond(cond, func(y ssa.Value) bool { return isErrorType(y.Type()) }); pol != 0 {
+				return pol
+			}
+			// burnedout
+			return boolCond(cond, func(y ssa.Value) bool { return strings.HasSuffix(pathOf(y).FieldString(), "burnedout") })
+		})
+		for i2 := range reachFromInstr(fn.Blocks[0].Instrs[0], allowed, func(i ssa.Instruction) bool { return i == call }) {
+			if _, isRet := i2.(*ssa.Return); isRet {
+				okv, how = false, "the return at "+p.ipos(i2)+" is reachable without the year booking although the schedule is running and no error occurred"
+			}
+		}
+	}
+	r.Check(okv, "C13.schedule", fname(fn), "the year counter (and its cycle-end snapshot) is booked for every block of a running schedule", "addYearDistributedRewards on every path except burn-out and storage errors",
+		"ConsumeRewards: "+how+": when that block closes a cycle the snapshot TillLastCycle is not taken, and the next cycle computes its per-block amount from a supply that is partly spent already", p.pos(fn.Pos()))
+}
+
+// ---- <prop>.dumpfields ----------------------------------------------------------------------------------------------
+//
+// Sibling agreement on record fields: whatever field of an exported record the state dump fills, the loader must consume
+// (read the field, or hand the whole record on). A loader that rebuilds a record from some of its fields silently replaces
+// the others by derived values (the reward interval's LastIndex restarting at 1 is how matured chunks mature twice).
+func checkDumpLoadFields(r *Run, rule, dumpName, loadName string) {
+	p := r.P
+	dump, load := p.MustFn(dumpName), p.MustFn(loadName)
+	withClosures := func(fn *ssa.Function) []*ssa.Function {
+		res := []*ssa.Function{fn}
+		for i := 0; i < len(res); i++ {
+			res = append(res, res[i].AnonFuncs...)
+		}
+		return res
+	}
+	recType := func(t types.Type) *types.Named {
+		if pt, ok := t.Underlying().(*types.Pointer); ok {
+			t = pt.Elem()
+		}
+		n, ok := t.(*types.Named)
+		if !ok || n.Obj().Pkg() == nil || n.Obj().Pkg() != fnPkg(dump) {
+			return nil
+		}
+		if _, isS := n.Underlying().(*types.Struct); !isS {
+			return nil
+		}
+		return n
+	}
+	// the state container (result type of the dump) is not a record
+	var container *types.Named
+	if dump.Signature.Results().Len() > 0 {
+		container = recType(dump.Signature.Results().At(0).Type())
+	}
+	dumped := map[string]map[string]bool{}
+	for _, f := range withClosures(dump) {
+		allInstrs(f, func(ins ssa.Instruction) {
+			st, ok := ins.(*ssa.Store)
+			if !ok {
+				return
+			}
+			fa, ok := st.Addr.(*ssa.FieldAddr)
+			if !ok {
+				return
+			}
+			n := recType(fa.X.Type())
+			if n == nil || n == container {
+				return
+			}
+			if _, isLocal := fa.X.(*ssa.Alloc); !isLocal {
+				return
+			}
+			if dumped[n.Obj().Name()] == nil {
+				dumped[n.Obj().Name()] = map[string]bool{}
+			}
+			dumped[n.Obj().Name()][fieldName(fa.X.Type(), fa.Field)] = true
+		})
+	}
+	read, whole := map[string]map[string]bool{}, map[string]bool{}
+	mark := func(n *types.Named, f string) {
+		if read[n.Obj().Name()] == nil {
+			read[n.Obj().Name()] = map[string]bool{}
+		}
+		read[n.Obj().Name()][f] = true
+	}
+	for _, f := range withClosures(load) {
+		allInstrs(f, func(ins ssa.Instruction) {
+			switch x := ins.(type) {
+			case *ssa.Field:
+				if n := recType(x.X.Type()); n != nil {
+					mark(n, fieldName(x.X.Type(), x.Field))
+				}
+			case *ssa.FieldAddr:
+				if n := recType(x.X.Type()); n != nil {
+					for _, u := range *x.Referrers() {
+						if ld, ok := u.(*ssa.UnOp); ok && ld.Op == token.MUL {
+							mark(n, fieldName(x.X.Type(), x.Field))
+						}
+					}
+				}
+			case *ssa.MakeInterface:
+				if n := recType(x.X.Type()); n != nil {
+					whole[n.Obj().Name()] = true
+				}
+			case ssa.CallInstruction:
+				for _, a := range x.Common().Args {
+					if n := recType(a.Type()); n != nil && n != container {
+						whole[n.Obj().Name()] = true
+					}
+				}
+			}
+		})
+	}
+	var names []string
+	for n := range dumped {
+		names = append(names, n)
+	}
+	sort.Strings(names)
+	if len(names) == 0 {
+		fail("%s: no dumped record type recognised in %s", rule, dumpName)
+	}
+	for _, n := range names {
+		var missing []string
+		if !whole[n] {
+			for f := range dumped[n] {
+				if !read[n][f] {
+					missing = append(missing, f)
+				}
+			}
+		}
+		sort.Strings(missing)
+		r.Check(len(missing) == 0, rule, fname(load), "record "+n+": every dumped field is consumed by the loader", "the loader reads each field the dump fills, or stores the record whole",
+			fname(load)+" never reads "+n+"."+strings.Join(missing, ", "+n+".")+", which "+fname(dump)+" fills: the imported chain replaces it by a derived value, so the loaded state is not the dumped one", p.pos(load.Pos()))
+	}
+}
+
+// ---- C15.persist ----------------------------------------------------------------------------------------------------
+//
+// The finality handler adds the witness's vote to the tracker object it read, then hands that object to a settlement
+// helper (mint / burn / refund / fail). The vote exists only in that object until it is stored: every helper must store
+// the very object it was given on each of its successful returns — a helper that re-reads the tracker by name and stores
+// the copy drops the threshold-crossing vote, and the stored tracker never counts as finalised.
+func checkVotePersisted(r *Run) {
+	p := r.P
+	const setName = "(*data/ethereum.TrackerStore).Set"
+	if p.Fn(setName) == nil {
+		fail("anchor symbol missing: %s", setName)
+	}
+	memo := map[string]bool{}
+	var persists func(fn *ssa.Function, k int, depth int) (bool, string)
+	persists = func(fn *ssa.Function, k int, depth int) (bool, string) {
+		if fn.Blocks == nil || k >= len(fn.Params) || depth > 3 {
+			return false, "body not available"
+		}
+		key := fmt.Sprintf("%p/%d", fn, k)
+		if v, ok := memo[key]; ok {
+			return v, ""
+		}
+		memo[key] = true
+		param := fn.Params[k]
+		isPersist := func(ins ssa.Instruction) bool {
+			c, ok := ins.(*ssa.Call)
+			if !ok {
+				return false
+			}
+			if calleeName(c) == setName {
+				return len(c.Call.Args) > 1 && resolveLoad(c.Call.Args[1]) == ssa.Value(param)
+			}
+			if sc := c.Call.StaticCallee(); sc != nil && inRepo(sc) {
+				for j, a := range c.Call.Args {
+					if resolveLoad(a) == ssa.Value(param) {
+						if ok, _ := persists(sc, j, depth+1); ok {
+							return true
+						}
+					}
+				}
+			}
+			return false
+		}
+		why := ""
+		first := fn.Blocks[0].Instrs[0]
+		check := func(i2 ssa.Instruction) {
+			if ret, isRet := i2.(*ssa.Return); isRet && returnMayBeSuccess(ret) {
+				// `return store.Set(param)` is the persisting call itself
+				why = "its successful return at " + p.ipos(ret) + " is reachable without storing the tracker it was given"
+			}
+		}
+		if !isPersist(first) {
+			check(first)
+			for i2 := range reachFromInstr(first, nil, isPersist) {
+				check(i2)
+			}
+		}
+		memo[key] = why == ""
+		return why == "", why
+	}
+	h := p.MustFn("action/eth.runCheckFinality")
+	var voted ssa.Value
+	allInstrs(h, func(ins ssa.Instruction) {
+		if c, ok := ins.(*ssa.Call); ok && calleeName(c) == "(*data/ethereum.Tracker).AddVote" {
+			voted = resolveLoad(c.Call.Args[0])
+		}
+	})
+	if voted == nil {
+		fail("C15.persist: AddVote not found in runCheckFinality")
+	}
+	n := 0
+	allInstrs(h, func(ins ssa.Instruction) {
+		c, ok := ins.(*ssa.Call)
+		if !ok {
+			return
+		}
+		sc := c.Call.StaticCallee()
+		if sc == nil || fnPkg(sc) == nil || fnPkg(sc).Path() != Mod+"/action/eth" {
+			return
+		}
+		for j, a := range c.Call.Args {
+			if resolveLoad(a) != voted {
+				continue
+			}
+			n++
+			ok, why := persists(sc, j, 0)
+			r.Check(ok, "C15.persist", fname(sc), "the settlement helper stores the tracker object that carries the new vote", "TrackerStore.Set(parameter) before every successful return",
+				fname(sc)+": "+why+" (called at "+p.ipos(c)+" with the tracker the vote was just added to): the threshold-crossing vote is lost, the stored tracker never counts as finalised and the next report settles it again", p.ipos(c))
+		}
+	})
+	if n < 6 {
+		fail("C15.persist: only %d settlement helpers receive the voted tracker (expected 6)", n)
+	}
+}
+
+// ---- C15.identity ---------------------------------------------------------------------------------------------------
+//
+// (name) The tracker store derives a record's key from Tracker.TrackerName, so every Tracker the package builds (the
+// constructor and the archive copy made by Clean) must carry the name. (decode) The name is the hash of the submitted
+// bytes while the Ethereum transaction is what they decode to: the decoding must consume the whole input (rlp.DecodeBytes),
+// otherwise one Ethereum transaction has many valid submissions and as many trackers.
+func checkTrackerIdentity(r *Run) {
+	p := r.P
+	n := 0
+	for _, fn := range sortedFns(p.Fns) {
+		if pk := fnPkg(fn); pk == nil || pk.Path() != Mod+"/data/ethereum" || fn.Blocks == nil {
+			continue
+		}
+		allInstrs(fn, func(ins ssa.Instruction) {
+			a, ok := ins.(*ssa.Alloc)
+			if !ok || !a.Heap || namedOf(a.Type()) == nil || tname(namedOf(a.Type())) != "data/ethereum.Tracker" || a.Comment != "complit" {
+				return
+			}
+			named, any := false, false
+			for _, u := range *a.Referrers() {
+				if fa, ok := u.(*ssa.FieldAddr); ok {
+					for _, u2 := range *fa.Referrers() {
+						if _, isSt := u2.(*ssa.Store); isSt {
+							any = true
+							if fieldName(fa.X.Type(), fa.Field) == "TrackerName" {
+								named = true
+							}
+						}
+					}
+				}
+			}
+			if !any {
+				return // an empty literal is a decoding target, filled from stored bytes
+			}
+			n++
+			r.Check(named, "C15.identity", fname(fn), "a tracker built here carries its name", "TrackerName assigned in the composite literal",
+				"the Tracker built at "+p.ipos(a)+" has no TrackerName: TrackerStore.Set files it under the zero name, so Exists(name) on that store stays false and the same Ethereum transaction can be submitted again", p.ipos(a))
+		})
+	}
+	if n < 2 {
+		fail("C15.identity: only %d Tracker literals found in data/ethereum", n)
+	}
+	dt := p.MustFn("chains/ethereum.DecodeTransaction")
+	strict, lenient := false, ""
+	allInstrs(dt, func(ins ssa.Instruction) {
+		switch calleeName(ins) {
+		case "github.com/ethereum/go-ethereum/rlp.DecodeBytes":
+			strict = true
+		case "github.com/ethereum/go-ethereum/rlp.Decode", "(*github.com/ethereum/go-ethereum/rlp.Stream).Decode":
+			lenient = p.ipos(ins)
+		}
+	})
+	how := "rlp.DecodeBytes is not called"
+	if lenient != "" {
+		how = "the stream decoder at " + lenient + " stops after the first value and ignores what follows"
+	}
+	r.Check(strict && lenient == "", "C15.identity", fname(dt), "the submitted bytes are decoded as exactly one transaction", "rlp.DecodeBytes (rejects trailing input)",
+		"DecodeTransaction: "+how+": the same Ethereum transaction with bytes appended decodes identically but hashes to another tracker name, so it can be locked (and minted) once per variant", p.pos(dt.Pos()))
+}
+
+// ---- C14.goal -------------------------------------------------------------------------------------------------------
+//
+// "The funding goal is met" is decided in three handlers (create: reject an initial funding that already meets the goal;
+// fund: start the vote; withdraw: refuse while the goal is met). The three comparisons must put the boundary (funds ==
+// goal) on the same side: the fund handler's comparison is the definition, the others are normalised to "funds REL goal"
+// and must be that relation or its negation. A create that accepts funds == goal yields a proposal that is in FUNDING with
+// its goal met, which no later transaction can move.
+func checkGoalBoundary(r *Run) {
+	p := r.P
+	isGoal := func(v ssa.Value) bool {
+		return derivesFrom(v, func(y ssa.Value) bool { return strings.HasSuffix(pathOf(y).FieldString(), "FundingGoal") })
+	}
+	// class: true = boundary counts as met (>= or <), false = boundary counts as not met (> or <=)
+	type site struct {
+		fn   *ssa.Function
+		ins  ssa.Instruction
+		incl bool
+	}
+	var sites []site
+	flipOp := map[token.Token]token.Token{token.LSS: token.GTR, token.LEQ: token.GEQ, token.GTR: token.LSS, token.GEQ: token.LEQ}
+	add := func(fn *ssa.Function, ins ssa.Instruction, x, y ssa.Value, op token.Token) {
+		gx, gy := isGoal(x), isGoal(y)
+		if gx == gy {
+			return
+		}
+		if gx { // goal OP funds  ->  funds flip(OP) goal
+			op = flipOp[op]
+		}
+		switch op {
+		case token.GEQ, token.LSS:
+			sites = append(sites, site{fn, ins, true})
+		case token.GTR, token.LEQ:
+			sites = append(sites, site{fn, ins, false})
+		}
+	}
+	for _, fn := range sortedFns(p.Fns) {
+		if pk := fnPkg(fn); pk == nil || pk.Path() != Mod+"/action/governance" || fn.Blocks == nil {
+			continue
+		}
+		allInstrs(fn, func(ins ssa.Instruction) {
+			switch x := ins.(type) {
+			case *ssa.Call:
+				switch calleeName(x) {
+				case "(data/balance.Coin).LessThanCoin":
+					add(fn, ins, x.Call.Args[0], x.Call.Args[1], token.LSS)
+				case "(data/balance.Coin).LessThanEqualCoin":
+					add(fn, ins, x.Call.Args[0], x.Call.Args[1], token.LEQ)
+				}
+			case *ssa.BinOp:
+				if _, ok := flipOp[x.Op]; !ok {
+					return
+				}
+				c, isC := x.X.(*ssa.Call)
+				k, isK := intConst(x.Y)
+				if !isC || !isK || k != 0 || calleeName(c) != "(*math/big.Int).Cmp" {
+					return
+				}
+				add(fn, ins, c.Call.Args[0], c.Call.Args[1], x.Op)
+			}
+		})
+	}
+	var def *site
+	for i := range sites {
+		if sites[i].fn.Name() == "runFundProposal" {
+			def = &sites[i]
+		}
+	}
+	if def == nil || len(sites) < 3 {
+		fail("C14.goal: goal comparisons not recognised (%d sites, fund handler %v)", len(sites), def != nil)
+	}
+	for _, s := range sites {
+		if s.ins == def.ins {
+			continue
+		}
+		r.Check(s.incl == def.incl, "C14.goal", fname(s.fn), "funds == goal is on the same side as in the fund handler", "comparison normalised to funds REL goal agrees with "+p.ipos(def.ins),
+			"the comparison at "+p.ipos(s.ins)+" treats funds == goal differently from the fund handler ("+p.ipos(def.ins)+"): a proposal can then sit in FUNDING with its goal met (or be refused although it is not met), a state no later transaction resolves — the contribution is neither returned nor distributed", p.ipos(s.ins))
+	}
+}
+
+// ---- C14.total ------------------------------------------------------------------------------------------------------
+//
+// The fund store maintains a per-proposal total next to the per-funder records. Readers must take the total from that
+// record (a point read sees the open transaction and block); a reader that recomputes it by iterating the per-funder
+// records sees committed entries only. Structural form: every key builder the writers use is also used by a point reader.
+func checkFundTotalRead(r *Run) {
+	p := r.P
+	const T = "(*data/governance.ProposalFundStore)."
+	reaches := func(fn *ssa.Function, names ...string) bool {
+		seen := map[*ssa.Function]bool{}
+		var walk func(f *ssa.Function, d int) bool
+		walk = func(f *ssa.Function, d int) bool {
+			if f == nil || f.Blocks == nil || seen[f] || d > 3 {
+				return false
+			}
+			seen[f] = true
+			hit := false
+			allInstrs(f, func(ins ssa.Instruction) {
+				c, ok := ins.(*ssa.Call)
+				if !ok {
+					return
+				}
+				n := calleeName(c)
+				for _, w := range names {
+					if n == T+w {
+						hit = true
+					}
+				}
+				if sc := c.Call.StaticCallee(); sc != nil && strings.HasPrefix(fname(sc), T) && walk(sc, d+1) {
+					hit = true
+				}
+			})
+			return hit
+		}
+		return walk(fn, 0)
+	}
+	usesKey := func(fn *ssa.Function, kb *ssa.Function) bool {
+		u := false
+		allInstrs(fn, func(ins ssa.Instruction) {
+			if c, ok := ins.(*ssa.Call); ok && c.Call.StaticCallee() == kb {
+				u = true
+			}
+		})
+		return u
+	}
+	var builders []*ssa.Function
+	for fn := range p.Fns {
+		if pk := fnPkg(fn); pk != nil && pk.Path() == Mod+"/data/governance" && fn.Signature.Recv() == nil && strings.HasPrefix(fn.Name(), "assemble") && strings.Contains(fn.Name(), "Funds") {
+			builders = append(builders, fn)
+		}
+	}
+	sort.Slice(builders, func(i, j int) bool { return builders[i].Name() < builders[j].Name() })
+	n := 0
+	for _, kb := range builders {
+		written, readBy := "", ""
+		for _, fn := range sortedFns(p.Fns) {
+			if !strings.HasPrefix(fname(fn), T) || fn.Blocks == nil || !usesKey(fn, kb) {
+				continue
+			}
+			if reaches(fn, "set", "delete") {
+				written = fname(fn)
+			} else if reaches(fn, "get") {
+				readBy = fname(fn)
+			}
+		}
+		if written == "" {
+			continue
+		}
+		n++
+		r.Check(readBy != "", "C14.total", kb.Name(), "a maintained record is read where it is maintained", "a non-writing method of the fund store reads the key with get()",
+			"the record under "+kb.Name()+" is kept up to date by "+written+" but no reader takes it from there: the figure is recomputed some other way (an iteration sees committed entries only, so a contribution made earlier in the same block is not counted)", p.pos(kb.Pos()))
+	}
+	if n < 1 {
+		fail("C14.total: no maintained fund record recognised")
 	}
 }
